@@ -305,12 +305,21 @@ def replay_shape(inputs):
     sc = rng.random(3)
     if inputs.get('face_site'):
         sc = np.array([0.9, 0.93, 0.05])
+    if inputs.get('near_special'):
+        # close to, but not on, a special position: several symmetry images fall within 1e-3 (fractional) of each other
+        sc = np.array([0.5, 0.5, 0.5]) + np.array([3e-4, -2e-4, 1e-4]) if seed % 2 else np.array([3e-4, 2e-4, -1e-4]) % 1.0
     site = PeriodicSite('Li', sc, lat, label='A')
     widths = np.array([lat.volume / np.linalg.norm(np.cross(lat.matrix[(i + 1) % 3], lat.matrix[(i + 2) % 3])) for i in range(3)])
     radius = float(inputs.get('radius_fraction', 0.49)) * widths.min()
     n = int(inputs.get('n_positions', 60))
     positions = rng.random((n, 3))
     positions[: n // 4] = np.mod(sc + rng.normal(scale=0.4, size=(n // 4, 3)), 1)
+    if inputs.get('near_special'):
+        # points on a thin shell (+- 0.003 A) around the sphere boundary of the site itself
+        dirs = rng.normal(size=(n // 2, 3))
+        dirs /= np.linalg.norm(dirs, axis=1)[:, None]
+        rr = radius + rng.uniform(-0.003, 0.003, size=(n // 2, 1))
+        positions[n // 4: n // 4 + n // 2] = np.mod(sc + (dirs * rr) @ np.linalg.inv(lat.matrix), 1)
     an = ShapeAnalyzer(sites=[site], lattice=lat, spacegroup=sg)
     bad = []
     sup = inputs.get('supercell')
@@ -326,8 +335,14 @@ def replay_shape(inputs):
             import warnings
             with warnings.catch_warnings():
                 warnings.simplefilter('ignore')
+                before_traj = np.array(traj.positions, copy=True)
                 shapes = an.analyze_trajectory(traj, supercell=tuple(sup), radius=radius)
+                again = an.analyze_trajectory(traj, supercell=tuple(sup), radius=radius)
             out = shapes[0].coords
+            if not np.array_equal(np.asarray(traj.positions), before_traj):
+                bad.append('analyze_trajectory changed the positions of the trajectory it was given')
+            if again[0].coords.shape != out.shape or not np.allclose(np.sort(np.linalg.norm(again[0].coords, axis=1)), np.sort(np.linalg.norm(out, axis=1)), atol=1e-9):
+                bad.append('a second analyze_trajectory call on the same trajectory collects different points')
         else:
             before = positions.copy()
             out = an.find_equivalent_positions(site=site, positions=positions, radius=radius)
@@ -358,13 +373,20 @@ def bounded_shape(tier, seed):
     import numpy as np
     groups = ['P1', 'P-1', 'P2_1/c', 'Pnma', 'P4/mmm', 'P6_3/mmc', 'R-3m', 'Fm-3m', 'Ia-3d', 'C2/m']
     n = 20 if tier == 'quick' else 400
-    st = Stand('C17.shape.bruteforce', f'{n} cases over space groups {groups} (offline pymatgen tables), sites near faces, radii up to 0.49 x smallest perpendicular width, supercells up to 3',
+    st = Stand('C17.shape.bruteforce', f'{n} cases over space groups {groups} (offline pymatgen tables), sites near faces and within 1e-3 of special positions (with points on a thin shell around the sphere boundary), radii up to 0.49 x smallest perpendicular width, supercells up to 3 analysed twice on the same trajectory',
                'seeded random vs explicit-image brute force; non-trivial = group with > 2 operations or face site; distinct by input')
     rng = np.random.default_rng(seed + 1717)
     for c in range(n):
         inp = {'seed': int(rng.integers(1, 10 ** 6)), 'group': groups[c % len(groups)], 'face_site': bool(c % 3 == 0), 'radius_fraction': float(rng.choice([0.2, 0.35, 0.49]))}
         if c % 5 == 4:
             inp['supercell'] = [int(x) for x in rng.integers(1, 4, size=3)]
+            if c % 10 == 9:
+                inp['supercell'] = [2, 1, 3]
+        if c % 4 == 1 and 'supercell' not in inp:
+            inp['near_special'] = True
+            inp['face_site'] = False
+            inp['radius_fraction'] = 0.3
+            inp['n_positions'] = 120
         r = st.guard(replay_shape, inp)
         if r is None:
             continue
